@@ -24,8 +24,9 @@ import vcc
 
 PRUNE = "simplicity::node::redeem::<impl simplicity::node::Node<simplicity::node::redeem::Redeem>>::prune_with_tracker"
 FINISH = dict(level="other",
-              explanation="Decision-table extraction (path enumeration with constant propagation over enum/bool switches) for the "
-                          "tracker, the pruning decision and the case→assertion rewrite; dominator/provenance rules for the pruning "
+              explanation="Decision tables: the tracker's by abstract evaluation of visit_node over 16 combinators x 3 states of the choice "
+                          "bit (forks on any other condition), the pruning decision and the case→assertion rewrite by path enumeration with "
+                          "constant propagation; same-method delegation of forwarding trackers; dominator/provenance rules for the pruning "
                           "pipeline; premises from C09 and C12 re-evaluated.",
               assumptions=["the Bit Machine executes the program as the semantics prescribe (C05)",
                            "type re-inference of the pruned program yields its principal types (C04; not decided)"])
